@@ -104,6 +104,7 @@ func flRun(base string, ca interface{}, pool interface{}, f []string, o *Out, px
 	backend, transport := f[2], f[3]
 	n, _ := strconv.Atoi(f[4])
 	pre, kind, disc, evict := f[5], f[6], f[7], f[8] == "1"
+	expireAtHandover := f[8] == "2" // the stored entry's lifetime runs out between the shared call returning and the callers re-opening it
 	late := 0 // clients that arrive after the hang-ups, while the shared fetch is still in flight
 	if len(f) > 9 {
 		late, _ = strconv.Atoi(f[9])
@@ -203,6 +204,15 @@ func flRun(base string, ca interface{}, pool interface{}, f []string, o *Out, px
 		}
 		defer func() { proxy.VerifYield = nil }()
 	}
+	if expireAtHandover {
+		var once sync.Once
+		proxy.VerifYield = func(point string) {
+			if point == "flight.afterDo" {
+				once.Do(func() { p.VerifCache().(cache.VerifHooks).VerifShiftClock(61 * time.Second) })
+			}
+		}
+		defer func() { proxy.VerifYield = nil }()
+	}
 	clients := make([]*flClient, n)
 	clients[0] = one()
 	// the leader must be inside the flight (its upstream request parked at the origin) before the others arrive
@@ -278,6 +288,7 @@ func flRun(base string, ca interface{}, pool interface{}, f []string, o *Out, px
 	o.Count("pre:" + pre)
 	o.Count("kind:" + kind)
 	o.Count("late:" + strconv.Itoa(late))
+	o.Count("window:" + f[8])
 	note := ""
 	if !leaderParked || !arrived {
 		note = " setup-incomplete"
@@ -329,6 +340,8 @@ func init() {
 				{"mem", "plain", "5", "stale", "cacheable", "leader", "1"},
 				{"mem", "plain", "3", "cold", "cacheable", "f1", "0", "2"},
 				{"file", "plain", "2", "stale", "cacheable", "leader", "0", "1"},
+				{"mem", "plain", "4", "cold", "cacheable", "none", "2", "0"},
+				{"file", "tunnel", "3", "cold", "cacheable", "none", "2", "1"},
 			} {
 				emit(append([]string{"fl", "run"}, sc...)...)
 			}
@@ -358,6 +371,8 @@ func init() {
 				ev := "0"
 				if r.Chance(25) && pre != "fresh" {
 					ev = "1"
+				} else if r.Chance(20) && pre != "fresh" {
+					ev = "2" // (with a fresh entry the shift would simply make later arrivals revalidate: not a coalescing question)
 				}
 				late := "0"
 				if r.Chance(40) {
